@@ -2875,6 +2875,28 @@ class NetCDFWrite(IOWrite):
                         "not in the same group nor in a parent group."
                     )
 
+                # The dimension is given to the netCDF library by its
+                # basename, which the library binds to the nearest
+                # dimension of that name, searching from the
+                # variable's group towards the root group. Refuse a
+                # placement for which that would be a different
+                # dimension, defined in a group in between.
+                basename = self._remove_group_structure(ncdim)
+                n_up = max(groups.count("/") - 1, 0) - max(
+                    ncdim_groups.count("/") - 1, 0
+                )
+                group = self._parent_group(ncvar)
+                for _ in range(n_up):
+                    if basename in group.dimensions:
+                        raise ValueError(
+                            f"Can't create netCDF variable {ncvar!r} from "
+                            f"{cfvar!r} with netCDF dimension {ncdim!r} that "
+                            "is hidden by the netCDF dimension of the same "
+                            f"name in group {group.path!r}."
+                        )
+
+                    group = group.parent
+
         # ------------------------------------------------------------
         # Replace netCDF dimension names with their basenames
         # (CF>=1.8)
